@@ -122,11 +122,14 @@ func c13Check(c c13Case, rec *evid.Recorder) *Fail {
 // rejects it must be explainable by its two documented relaxations alone:
 // there must be a repaired text - the input plus statement separators and plus
 // closing braces at the very end, nothing else - that *strict* mode accepts
-// with the same tree.  The repair is read off the tolerant tree's compact
-// printing (where the printing has a `;` or a final `}` that the input lacks,
-// one is inserted at that place of the input); strict mode is the judge, so
-// every quirk strict mode has of its own is shared and never reported here.
-// A tolerant parse that reports errors asserts nothing.
+// with the same tree.  The repair is found with strict mode's own first error
+// as the guide: a `;` is inserted in front of the token the error points at (or
+// in front of the token after it), or - when the error is at the end of the
+// input - a `}` is appended; a step counts only if it moves the first error
+// forward or removes it.  Strict mode is the judge, so every quirk it has of
+// its own is shared and never reported here; neither the printer nor the
+// wording of any message is involved.  A tolerant parse that reports errors
+// asserts nothing.
 func c13Corrupt(src string, rec *evid.Recorder) *Fail {
 	for _, smart := range []bool{false, true} {
 		rec.Eval()
@@ -147,64 +150,80 @@ func c13Corrupt(src string, rec *evid.Recorder) *Fail {
 		if perr != nil {
 			return failf("tolerant mode (smart=%v) accepts the text without error but the tree does not compile: %v\nsrc %q", smart, perr, src)
 		}
-		in, out := lexAll(src), lexAll(code)
-		lt := reflex.NewLineTable([]byte(src))
-		type ins struct {
-			off int
-			s   string
+		repaired, ok := c13Repair(src, smart)
+		if !ok {
+			return failf("tolerant mode (smart=%v) accepts without error a text that strict mode rejects, and no combination of added statement separators and final closing braces makes the text acceptable to strict mode: the acceptance is not explained by the documented relaxations\nsrc      %q\ntree     %q\nbest repair %q\nstrict errors on src %v", smart, src, code, repaired, es)
 		}
-		var adds []ins
-		i, j := 0, 0
-		for j < len(out) && out[j].Type != token.EOF {
-			atEnd := i >= len(in) || in[i].Type == token.EOF
-			o := out[j]
-			switch {
-			case o.Type == token.SEMICOLON && !atEnd && in[i].Type == token.SEMICOLON:
-				i++
-				j++
-			case (o.Type == token.LPAREN || o.Type == token.RPAREN) && (atEnd || in[i].Type != o.Type):
-				j++ // parenthesis added by the printer
-			case o.Type == token.SEMICOLON:
-				off := len(src)
-				if !atEnd {
-					off = lt.Offset(in[i].Start.Line, in[i].Start.Column)
-				}
-				adds = append(adds, ins{off, ";"})
-				j++
-			case !atEnd && in[i].Type == token.SEMICOLON:
-				i++ // a separator of the input that the printing does not repeat here
-			case atEnd && o.Type == token.RBRACE:
-				adds = append(adds, ins{len(src), "}"})
-				j++
-			default:
-				i++
-				j++
-			}
-		}
-		var b strings.Builder
-		last := 0
-		for _, a := range adds {
-			if a.off < last || a.off > len(src) {
-				continue
-			}
-			b.WriteString(src[last:a.off])
-			if a.off == len(src) && last < len(src) && strings.Contains(src[lastLineStart(src):], "//") {
-				b.WriteString("\n") // never append into a trailing comment
-			}
-			b.WriteString(a.s)
-			last = a.off
-		}
-		b.WriteString(src[last:])
-		repaired := b.String()
-		ps, esr, _ := parseX(repaired, Mode{Smart: smart})
-		if len(esr) > 0 {
-			return failf("tolerant mode (smart=%v) accepts without error a text that strict mode rejects, and adding the statement separators and final closing braces of the tree it returns does not make the text acceptable to strict mode (%v): the acceptance is not explained by the documented relaxations\nsrc      %q\ntree     %q\nrepaired %q\nstrict errors on src %v", smart, esr[0].Message, src, code, repaired, es)
-		}
+		ps, _, _ := parseX(repaired, Mode{Smart: smart})
 		if code2, _, _ := safeCompile(ps, Cfg{}); code2 != code {
 			return failf("tolerant mode (smart=%v): the tree differs from strict mode's tree of the text repaired with separators and final braces only\nsrc      %q\ntolerant %q\nrepaired %q\nstrict   %q", smart, src, code, repaired, code2)
 		}
 	}
 	return nil
+}
+
+// c13Repair: see c13Corrupt.  Blocks left open can only be closed at the very
+// end, and how many are open is a matter of counting braces; where separators
+// are missing is found with strict mode's first error as the guide.
+func c13Repair(src string, smart bool) (string, bool) {
+	open := 0
+	for _, t := range lexAll(src) {
+		switch t.Type {
+		case token.LBRACE:
+			open++
+		case token.RBRACE:
+			open--
+		}
+	}
+	cur := src
+	if open > 0 {
+		if strings.Contains(src[lastLineStart(src):], "//") {
+			cur += "\n" // never append into a trailing comment
+		}
+		cur += strings.Repeat("}", open)
+	}
+	errPos := func(text string) (int, bool) {
+		_, es, _ := parseX(text, Mode{Smart: smart})
+		if len(es) == 0 {
+			return 0, false
+		}
+		lt := reflex.NewLineTable([]byte(text))
+		off := lt.Offset(es[0].Range.Start.Line, es[0].Range.Start.Column)
+		if off < 0 || off > len(text) {
+			off = len(text)
+		}
+		return off, true
+	}
+	for step := 0; step < 80; step++ {
+		p, bad := errPos(cur)
+		if !bad {
+			return cur, true
+		}
+		// candidates: a separator in front of the token the error points at, or in
+		// front of the token after it (an implementation may report the missing
+		// separator at either)
+		cands := []string{cur[:p] + ";" + cur[p:]}
+		{
+			lt := reflex.NewLineTable([]byte(cur))
+			for _, t := range lexAll(cur) {
+				if o := lt.Offset(t.Start.Line, t.Start.Column); o > p && t.Type != token.EOF {
+					cands = append(cands, cur[:o]+";"+cur[o:])
+					break
+				}
+			}
+		}
+		progressed := false
+		for _, c := range cands {
+			if q, stillBad := errPos(c); !stillBad || q > p+1 {
+				cur, progressed = c, true
+				break
+			}
+		}
+		if !progressed {
+			return cur, false
+		}
+	}
+	return cur, false
 }
 
 func lastLineStart(s string) int {
